@@ -16,7 +16,7 @@ func TestDebug(t *testing.T) {
 	n := 0
 	for _, h := range multiHistories() {
 		if strings.Contains(h.String(), pat) {
-			out, viol, _, _ := runMulti(t, h.n, h.gossip, h.batching, h.evs)
+			out, viol, _, _ := runMulti(t, h.n, h.gossip, h.batching, h.relay, h.evs)
 			fmt.Println("DEBUG", h.String(), "=>", out)
 			for _, v := range viol {
 				fmt.Println("   ", v.key, v.detail)
